@@ -2142,9 +2142,11 @@ class MultiUserChannelMatrixExtInt(  # pylint: disable=R0904
     @property
     def H_no_ext_int(self) -> np.ndarray:
         """Get method for the H_no_ext_int property."""
-        # Call H property get method of the base class
-        H = MultiUserChannelMatrix.H.fget(self)  # type: ignore
-        return H[:self.K, :self.K]
+        # The H property of this class already leaves out the rows of the
+        # "external interference user" and applies the path loss (the
+        # get method of the base class cannot be used when there is path
+        # loss: it would multiply all rows by the K path loss rows)
+        return self.H[:self.K, :self.K]
 
     def corrupt_data(  # type: ignore
             self, data: np.ndarray, ext_int_data: np.ndarray) -> np.ndarray:
